@@ -147,7 +147,7 @@ theorem interf_keeps (s : St) (op : Op) (h : isInterf op = true) :
   · simp only [step]; split
     · exact ⟨by rw [runUpActions_down], by rw [runUpActions_uh], by rw [runUpActions_alive]⟩
     · exact ⟨rfl, rfl, rfl⟩
-  · simp only [step]; split <;> exact ⟨rfl, rfl, rfl⟩
+  · simp [step]
   · simp only [step]; split
     · exact ⟨by rw [releaseBlocked_down], by rw [releaseBlocked_uh], by rw [releaseBlocked_alive]⟩
     · exact ⟨rfl, rfl, rfl⟩
@@ -231,5 +231,160 @@ theorem drain_claims (m : MSt) (claims : List Claim) (c : Claim) (hc : c ∈ cla
   have k2 := run_interf_keeps (run (m1.hs c.source) (priOps m1 .drainEvents c.source)) t2 ht2
   rw [h2, k2.1, k2.2.1]
   exact hl
+
+/-! ### coherence: every HTLC's `downOther` counter equals the number of OTHER HTLCs holding an RAA blocker -/
+
+theorem releaseBlocked_dO (s : St) : (releaseBlocked s).downOther = s.downOther := by
+  unfold releaseBlocked handRaa; split <;> rfl
+theorem releaseBlocked_blocker (s : St) : (releaseBlocked s).blocker = s.blocker := by
+  unfold releaseBlocked handRaa; split <;> rfl
+theorem runUpActions_dO (s : St) : (runUpActions s).downOther = s.downOther := by
+  unfold runUpActions; split
+  · rfl
+  · rw [releaseBlocked_dO]
+theorem claimUpstream_dO (s : St) : (claimUpstream s).downOther = s.downOther := by
+  unfold claimUpstream; split <;> rw [runUpActions_dO]
+theorem completeAll_dO (s : St) : (completeAll s).downOther = s.downOther := by
+  simp only [completeAll, runUpActions_dO]
+theorem replayClaims_dO (s : St) : (replayClaims s).downOther = s.downOther := by
+  unfold replayClaims; split
+  · rw [claimUpstream_dO]
+  · rfl
+
+def isDO : Op → Bool
+  | .addDownOther | .removeDownOther => true
+  | _ => false
+
+theorem step_dO (s : St) (op : Op) (h : isDO op = false) : (step s op).downOther = s.downOther := by
+  cases op with
+  | addDownOther => simp [isDO] at h
+  | removeDownOther => simp [isDO] at h
+  | complete w => cases w <;> simp only [step] <;> (repeat' split) <;> simp [runUpActions_dO]
+  | restart sy =>
+    simp only [step]; split
+    · rfl
+    · rw [runUpActions_dO]; split
+      · rw [completeAll_dO, replayClaims_dO]
+      · rw [replayClaims_dO]
+  | _ => simp only [step] <;> (repeat' split) <;> simp [handRaa, runUpActions_dO, claimUpstream_dO]
+
+theorem run_dO (s : St) (ops : List Op) (h : ∀ o ∈ ops, isDO o = false) : (run s ops).downOther = s.downOther := by
+  induction ops generalizing s with
+  | nil => rfl
+  | cons op t ih =>
+    have h1 := step_dO s op (h op (by simp))
+    have h2 := ih (step s op) (fun o ho => h o (by simp [ho]))
+    exact h2.trans h1
+
+theorem priOps_noDO (m : MSt) (op : MOp) (i : Nat) : ∀ o ∈ priOps m op i, isDO o = false := by
+  intro o ho
+  cases op <;> simp only [priOps] at ho <;> (try split at ho) <;> simp at ho <;> (try (rcases ho with ⟨_, _, rfl⟩)) <;> (try subst ho) <;> rfl
+
+theorem secOps_noDO (n : Nat) (b a : Nat → St) (i : Nat) : ∀ o ∈ secOps n b a i, isDO o = false := by
+  intro op h
+  simp only [secOps, List.mem_append, List.mem_replicate] at h
+  rcases h with ⟨-, rfl⟩ | ⟨-, rfl⟩ <;> rfl
+
+theorem run_adds (s : St) (a : Nat) :
+    (run s (List.replicate a Op.addDownOther)).downOther = s.downOther + a ∧
+    (run s (List.replicate a Op.addDownOther)).blocker = s.blocker := by
+  induction a generalizing s with
+  | zero => exact ⟨rfl, rfl⟩
+  | succ k ih =>
+    have := ih (step s .addDownOther)
+    simp only [List.replicate_succ, run, List.foldl_cons] at this ⊢
+    simp only [run] at ih
+    refine ⟨?_, ?_⟩
+    · rw [this.1]; simp only [step]; omega
+    · rw [this.2]; simp only [step]
+
+theorem run_removes (s : St) (r : Nat) (h : r ≤ s.downOther) :
+    (run s (List.replicate r Op.removeDownOther)).downOther = s.downOther - r ∧
+    (run s (List.replicate r Op.removeDownOther)).blocker = s.blocker := by
+  induction r generalizing s with
+  | zero => exact ⟨rfl, rfl⟩
+  | succ k ih =>
+    have hne : (s.downOther != 0) = true := by simp; omega
+    have hst : step s .removeDownOther = releaseBlocked { s with downOther := s.downOther - 1 } := by
+      simp only [step, hne, if_true]
+    have h1 : (step s .removeDownOther).downOther = s.downOther - 1 := by rw [hst, releaseBlocked_dO]
+    have h2 : (step s .removeDownOther).blocker = s.blocker := by rw [hst, releaseBlocked_blocker]
+    have := ih (step s .removeDownOther) (by rw [h1]; omega)
+    simp only [List.replicate_succ, run, List.foldl_cons] at this ⊢
+    refine ⟨?_, ?_⟩
+    · rw [this.1, h1]; omega
+    · rw [this.2, h2]
+
+theorem count_identity (l : List Nat) (c b a : Nat → Bool) :
+    (l.filter fun k => c k && a k).length + (l.filter fun k => c k && (b k && !a k)).length =
+    (l.filter fun k => c k && b k).length + (l.filter fun k => c k && (!b k && a k)).length := by
+  induction l with
+  | nil => rfl
+  | cons x t ih =>
+    simp only [List.filter_cons]
+    cases c x <;> cases a x <;> cases b x <;> simp <;> omega
+
+/-- the coherence invariant -/
+def Coh (m : MSt) : Prop := ∀ i, (m.hs i).downOther = countOthers m.n i (fun k => (m.hs k).blocker)
+
+theorem filter_false_len (l : List Nat) : (l.filter fun _ => false).length = 0 := by
+  induction l with
+  | nil => rfl
+  | cons a t ih => simpa using ih
+
+theorem coh_init (n : Nat) : Coh (minit n) := by
+  intro i
+  simp only [minit, Forward.init, countOthers, Bool.and_false]
+  exact (filter_false_len _).symm
+
+theorem step_DO_blocker (s : St) (op : Op) (h : isDO op = true) : (step s op).blocker = s.blocker := by
+  cases op <;> simp [isDO] at h
+  · rfl
+  · simp only [step]; split
+    · rw [releaseBlocked_blocker]
+    · rfl
+
+theorem run_DO_blocker (s : St) (ops : List Op) (h : ∀ o ∈ ops, isDO o = true) : (run s ops).blocker = s.blocker := by
+  induction ops generalizing s with
+  | nil => rfl
+  | cons op t ih =>
+    have h1 := step_DO_blocker s op (h op (by simp))
+    have h2 := ih (step s op) (fun o ho => h o (by simp [ho]))
+    exact h2.trans h1
+
+theorem terOps_allDO (n : Nat) (b a : Nat → St) (i : Nat) : ∀ o ∈ terOps n b a i, isDO o = true := by
+  intro op h
+  simp only [terOps, List.mem_append, List.mem_replicate] at h
+  rcases h with ⟨-, rfl⟩ | ⟨-, rfl⟩ <;> rfl
+
+theorem coh_step (m : MSt) (op : MOp) (h : Coh m) : Coh (mstep m op) := by
+  intro i
+  generalize hh1 : (fun i => run (m.hs i) (priOps m op i)) = hs1
+  generalize hh2 : (fun i => run (hs1 i) (secOps m.n m.hs hs1 i)) = hs2
+  have e3 : ∀ k, (mstep m op).hs k = run (hs2 k) (terOps m.n m.hs hs2 k) := by
+    intro k; subst hh2; subst hh1; rfl
+  have en : (mstep m op).n = m.n := rfl
+  have d2 : (hs2 i).downOther = (m.hs i).downOther := by
+    subst hh2; subst hh1
+    show (run (run (m.hs i) (priOps m op i)) _).downOther = _
+    rw [run_dO _ _ (secOps_noDO _ _ _ _), run_dO _ _ (priOps_noDO m op i)]
+  have hb : (fun k => ((mstep m op).hs k).blocker) = fun k => (hs2 k).blocker := by
+    funext k; rw [e3]; exact run_DO_blocker _ _ (terOps_allDO _ _ _ _)
+  have ci := count_identity (List.range m.n) (fun k => k != i) (fun k => (m.hs k).blocker) (fun k => (hs2 k).blocker)
+  have hi := h i
+  rw [e3, en, hb]
+  simp only [countOthers] at hi ⊢
+  simp only [terOps, ← run_append]
+  have a1 := run_adds (hs2 i) ((List.filter (fun k => k != i && (!(m.hs k).blocker && (hs2 k).blocker)) (List.range m.n)).length)
+  have r1 := run_removes (run (hs2 i) (List.replicate ((List.filter (fun k => k != i && (!(m.hs k).blocker && (hs2 k).blocker)) (List.range m.n)).length) Op.addDownOther))
+    ((List.filter (fun k => k != i && ((m.hs k).blocker && !(hs2 k).blocker)) (List.range m.n)).length) (by rw [a1.1, d2, hi]; omega)
+  simp only [countOthers]
+  rw [r1.1, a1.1, d2, hi]
+  omega
+
+theorem coh_run (m : MSt) (ops : List MOp) (h : Coh m) : Coh (mrun m ops) := by
+  induction ops generalizing m with
+  | nil => exact h
+  | cons op t ih => exact ih _ (coh_step m op h)
 
 end Ldk.FwdMulti
